@@ -185,15 +185,20 @@ CLAIMED = {
         "interleavings of par_iter are not explored (no shared mutable state; A-rayon).",
    technique="Coq proof (history induction, refinement to set semantics) + correspondence via OCaml extraction"),
  "C18": dict(
-   category="translation_validation",
-   text="The pywellen extension module is built from /repo and driven from python3 on generated VCD files: all_changes, value_at_idx for "
-        "every index, value_at_time for every table entry / midpoint / before / after, time_table[i] incl. negative and out-of-range i; "
-        "oracle computed from the abstract history; the Gallina model of the binding's logic (value_at_time search, delta-group element "
-        "selection, int-vs-string conversion, convert_py_idx) is run on the same files. Three genuine defects found this way were repaired "
-        "(D7a-c). Theorems value_at_time_spec etc. are not yet proved, hence the level.",
-   design_ref="DESIGN.md section 6, C18",
-   note="Trusted: Coq kernel, extraction, OCaml driver, the Python driver pyharness/run_py.py, Python oracle; PyO3 glue and num-bigint are exercised only.",
-   technique="correspondence: Coq model extracted to OCaml vs the real Python extension module + oracle from abstract history"),
+   category="proof",
+   text="Coq theorems over the Gallina model of the binding's logic (pywellen/src/lib.rs), pinned in Properties/C18.v: all_changes_spec - "
+        "all_changes() lists exactly the changes Signal::iter_changes reports (every change of a time step with several changes too), each "
+        "with the time of its time-table index and its value converted to a Python object; value_at_idx_spec - value_at_idx(i) is the value "
+        "of the last change of the group carrying the greatest time index <= i, None before the first change; value_at_time_spec - "
+        "value_at_time(t) is value_at_idx of the latest table entry <= t, None before the first; getitem_* - TimeTable indexing follows the "
+        "Python conventions (negative indices, IndexError range). They rest on the point-query theorems of C05. The model is tied to the "
+        "code by building the pywellen extension module from /repo and driving it from python3 on generated VCD files (all_changes, "
+        "value_at_idx for every index, value_at_time for every table entry / midpoint / before / after, time_table[i] incl. negative and "
+        "out-of-range i) against the extracted model and an oracle computed from the abstract history. Three genuine defects found this "
+        "way were repaired (D7a-c).",
+   design_ref="DESIGN.md section 6, C18 and section 12.5",
+   note="Trusted: Coq kernel, extraction, OCaml driver, the Python driver pyharness/run_py.py, Python oracle; PyO3 glue and num-bigint (int conversion of long 0/1 strings) are exercised, not modelled. Theorem premises: non-decreasing change indices (C02/C04), fewer than 65536 changes of one signal in one time step (complement: known finding D12), indices inside the time table.",
+   technique="Coq proof (binding logic refines iter_changes / point queries) + extracted-model correspondence against the real extension module + oracle"),
  "C17": dict(
    category="translation_validation",
    text="With feature serde1 every Hierarchy and loaded Signal of generated VCD files and of the corpus files of all three formats is "
